@@ -104,14 +104,17 @@ def Ty.isNoneNamed : Ty → Bool
   | .named n => n == noneName || n == "NoneType"
   | _ => false
 
-/-- pytd_utils.JoinTypes -/
-def joinTypes (ts : List Ty) : Ty :=
-  match dedupPy (flatList ts) with
+/-- the tail of JoinTypes, on the flattened duplicate-free `new_types` -/
+def joinCore (ms : List Ty) : Ty :=
+  match ms with
   | [t] => t
   | ms =>
     if ms.any Ty.isAny then
       if ms.any Ty.isNoneNamed then .union [.any, .named noneName] else .any
     else if ms.isEmpty then .nothing
     else mkUnion ms
+
+/-- pytd_utils.JoinTypes -/
+def joinTypes (ts : List Ty) : Ty := joinCore (dedupPy (flatList ts))
 
 end PytypeModel.Pytd
